@@ -474,6 +474,15 @@ func rulesC08(c *Ctx) {
 						}
 						okLoop = good && hasID && fg.ReachableFrom(incV)[wv]
 					})
+					// the same bookkeeping spelled positionally: the loop leaves the cursor alone, numbers the k-th replayed event
+					// cursor+1+k, and the cursor is advanced by the number of replayed events before it is stored
+					if !okLoop && local != nil {
+						inspectNoLit(f.Body, func(n ast.Node) {
+							if rs, isR := n.(*ast.RangeStmt); isR && len(f.CallsIn(rs.Body, writeEv, false)) > 0 && c08PositionalReplay(f, fg, rs, local, wv, fmtID, writeEv, esF) {
+								okLoop = true
+							}
+						})
+					}
 					// what is replayed is everything the store yields after the cursor: each datum of After's sequence is
 					// appended to the slice the replay loop ranges over (empty payloads, which stand for the priming event, excepted)
 					okAll := false
@@ -747,4 +756,212 @@ func ruleEventStoreBound(c *Ctx) {
 	}
 	c.Pin("writes to the event store by streamableServerConn", n, 2)
 
+}
+
+// c08Term is a term of an integer expression in coefficient form: a variable, or the length of a variable.
+type c08Term struct {
+	obj   types.Object
+	isLen bool
+}
+
+// c08Root: the variable a local stands for: a local (not a parameter) whose only write is its definition from another
+// variable — the copy an expanded helper's parameter leaves — is that variable.
+func c08Root(f *Func, obj types.Object, depth int) types.Object {
+	v, ok := obj.(*types.Var)
+	if !ok || v.IsField() || depth > 4 || f.Root().addressTaken(v) {
+		return obj
+	}
+	for _, p := range f.Root().Params() {
+		if p == v {
+			return obj
+		}
+	}
+	var def ast.Expr
+	n := 0
+	for _, w := range Writes(f.Root().Body, true) {
+		if f.ObjOf(w.LHS) != obj {
+			continue
+		}
+		n++
+		if w.Tok == token.DEFINE {
+			def = w.RHS
+		}
+	}
+	if n != 1 || def == nil {
+		return obj
+	}
+	if id, isID := ast.Unparen(def).(*ast.Ident); isID {
+		if o, isV := f.ObjOf(id).(*types.Var); isV && !o.IsField() {
+			return c08Root(f, o, depth+1)
+		}
+	}
+	return obj
+}
+
+// c08Lin: e as Σ coef·v + Σ coef·len(v) + k, over +, - and integer constants.
+func c08Lin(f *Func, e ast.Expr) (map[c08Term]int64, int64, bool) {
+	e = ast.Unparen(e)
+	if v, ok := f.ConstInt(e); ok {
+		return map[c08Term]int64{}, v, true
+	}
+	switch x := e.(type) {
+	case *ast.BinaryExpr:
+		if x.Op != token.ADD && x.Op != token.SUB {
+			return nil, 0, false
+		}
+		a, ca, ok1 := c08Lin(f, x.X)
+		b, cb, ok2 := c08Lin(f, x.Y)
+		if !ok1 || !ok2 {
+			return nil, 0, false
+		}
+		sign := int64(1)
+		if x.Op == token.SUB {
+			sign = -1
+		}
+		for k, v := range b {
+			a[k] += sign * v
+			if a[k] == 0 {
+				delete(a, k)
+			}
+		}
+		return a, ca + sign*cb, true
+	case *ast.Ident:
+		if v, ok := f.ObjOf(x).(*types.Var); ok && !v.IsField() {
+			return map[c08Term]int64{{c08Root(f, v, 0), false}: 1}, 0, true
+		}
+	case *ast.CallExpr:
+		if f.BuiltinName(x) == "len" && len(x.Args) == 1 {
+			if id, isID := ast.Unparen(x.Args[0]).(*ast.Ident); isID {
+				if v, ok := f.ObjOf(id).(*types.Var); ok && !v.IsField() {
+					return map[c08Term]int64{{c08Root(f, v, 0), true}: 1}, 0, true
+				}
+			}
+		}
+	}
+	return nil, 0, false
+}
+
+// c08PositionalReplay decides the replay bookkeeping of a loop that numbers the replayed events by position: rs ranges
+// over the slice S of queued payloads with index k and does not write the cursor; every event id formatted in an
+// iteration is cursor+1+k and is the ID of the event handed to writeEvent (on the sole condition that a store exists);
+// and the only write of the cursor is `cursor += len(S)` after the loop, on every path to the store into stream.lastIdx
+// (vertex wv) — so that the stored value is the index of the last replayed event.
+func c08PositionalReplay(f *Func, fg *Graph, rs *ast.RangeStmt, cursor types.Object, wv int, fmtID, writeEv *types.Func, esF *types.Var) bool {
+	if rs.Key == nil || f.Root().addressTaken(cursor) {
+		return false
+	}
+	if _, isSlice := f.TypeOf(rs.X).Underlying().(*types.Slice); !isSlice {
+		return false
+	}
+	key := f.ObjOf(rs.Key)
+	var slice types.Object
+	if id, isID := ast.Unparen(rs.X).(*ast.Ident); isID {
+		slice = c08Root(f, f.ObjOf(id), 0)
+	}
+	if key == nil || slice == nil || len(f.writesToVar(rs.Body, key, false)) > 0 {
+		return false
+	}
+	lv := fg.VertexOf(rs.X)
+	// ids
+	calls := f.CallsIn(rs.Body, fmtID, false)
+	if len(calls) == 0 {
+		return false
+	}
+	loopGuards := map[string]bool{}
+	for _, a := range fg.GuardsAt(lv) {
+		loopGuards[a.String()] = true
+	}
+	hasID := false
+	for _, call := range calls {
+		t, k, ok := c08Lin(f, call.Args[1])
+		if !ok || k != 1 || len(t) != 2 || t[c08Term{cursor, false}] != 1 || t[c08Term{key, false}] != 1 {
+			return false
+		}
+		// the event that carries the id
+		var evVar types.Object
+		direct := false
+		switch par := f.ParentOf(call).(type) {
+		case *ast.KeyValueExpr:
+			if kid, isID := par.Key.(*ast.Ident); !isID || kid.Name != "ID" {
+				continue
+			}
+			lit, isLit := f.ParentOf(par).(*ast.CompositeLit)
+			if !isLit {
+				continue
+			}
+			switch up := f.ParentOf(lit).(type) {
+			case *ast.AssignStmt:
+				if len(up.Lhs) == 1 {
+					evVar = f.ObjOf(up.Lhs[0])
+				}
+			case *ast.ValueSpec:
+				if len(up.Names) == 1 {
+					evVar = f.ObjOf(up.Names[0])
+				}
+			case *ast.CallExpr:
+				direct = f.IsCallTo(up, writeEv) && len(up.Args) == 2 && up.Args[1] == ast.Expr(lit)
+			}
+		case *ast.AssignStmt:
+			if len(par.Lhs) == 1 {
+				if sel, isSel := ast.Unparen(par.Lhs[0]).(*ast.SelectorExpr); isSel && sel.Sel.Name == "ID" {
+					evVar = f.ObjOf(sel.X)
+				}
+			}
+		}
+		carried := direct
+		for _, wc := range f.CallsIn(rs.Body, writeEv, false) {
+			if len(wc.Args) == 2 && evVar != nil && f.ObjOf(wc.Args[1]) == evVar && fg.ReachableFrom(fg.VertexOf(call))[fg.VertexOf(wc)] {
+				carried = true
+			}
+		}
+		if !carried {
+			continue
+		}
+		only := true
+		for _, a := range fg.GuardsAt(fg.VertexOf(call)) {
+			if loopGuards[a.String()] {
+				continue
+			}
+			if x, twn, isNil := NilTest(a.E); !(isNil && f.IsField(x, esF) && a.Val != twn) {
+				only = false
+			}
+		}
+		if only {
+			hasID = true
+		}
+	}
+	if !hasID {
+		return false
+	}
+	// the cursor: one write, after the loop, on every path to the store, adding the number of replayed events
+	ws := f.writesToVar(f.Body, cursor, true)
+	if len(ws) != 1 {
+		return false
+	}
+	as, isAs := ws[0].(*ast.AssignStmt)
+	if !isAs || len(as.Lhs) != 1 || len(as.Rhs) != 1 {
+		return false
+	}
+	t, k, ok := c08Lin(f, as.Rhs[0])
+	if !ok || k != 0 {
+		return false
+	}
+	switch as.Tok {
+	case token.ADD_ASSIGN:
+		if len(t) != 1 || t[c08Term{slice, true}] != 1 {
+			return false
+		}
+	case token.ASSIGN:
+		if len(t) != 2 || t[c08Term{slice, true}] != 1 || t[c08Term{cursor, false}] != 1 {
+			return false
+		}
+	default:
+		return false
+	}
+	av := fg.VertexOf(as)
+	if av < 0 || as.Pos() < rs.End() || !fg.ReachableFrom(lv)[av] || fg.ReachableFrom(av)[av] || !fg.Dominates(av, wv) {
+		return false
+	}
+	// the queue is the same between the loop and the advance
+	return !fg.writtenBetween(slice, lv, av)
 }
